@@ -18,9 +18,12 @@
    Abstractions (listed in the trusted base of C08): SQL statements are map operations on a
    per-space table [list (K * V)] holding the non-empty rows; account row ids are not
    modelled; a lookup, NewBlock, each of the three commit phases, a flush and a reload are
-   atomic steps (the Go code runs them under accountsMu / inside one SQL transaction, except
-   for the cache's pending-write channel which is filled after the read lock is dropped: the
-   model enqueues at lookup time). *)
+   atomic steps (the Go code runs them under accountsMu / inside one SQL transaction).  The one
+   thing a lookup does after dropping its read lock -- queueing what it read from the DB for
+   the base cache (writePending / writeNotFoundPending) -- is a separate step: a lookup can be
+   issued as a "stalled reader" (OSAcct ...) whose cache write lands at any later time (OLand).
+   [cf_fix] selects flushPendingWritesSince (pending entries read at an older DB round only
+   promote) versus the original flushPendingWrites (they are written like any other). *)
 From Coq Require Import NArith List Bool Arith.
 From Verif.model Require Import LedgerSpec.
 Import ListNotations.
@@ -83,8 +86,11 @@ Section Space.
     c_lru : list centry;     (* front = most recently used *)
     c_pend : list centry;    (* pendingAccounts channel, oldest first *)
     c_nf : list K;           (* notFound *)
-    c_pnf : list K }.        (* pendingNotFound channel *)
-  Definition cache_empty : cache := mkCache [] [] [] [].
+    c_pnf : list (K * nat);  (* pendingNotFound channel: key and the DB round it was looked up at *)
+    c_stall : list (centry + K * nat) }.
+                             (* cache writes of readers that have read the DB but not yet executed
+                                their writePending / writeNotFoundPending *)
+  Definition cache_empty : cache := mkCache [] [] [] [] [].
 
   Definition c_read (l : list centry) (k : K) : option centry :=
     find (fun e => keqb k (ce_key e)) l.
@@ -96,19 +102,54 @@ Section Space.
     | Some old => (if ce_rnd old <? ce_rnd e then e else old) :: c_remove l (ce_key e)
     | None => e :: l
     end.
+  (* MoveToFront of the entry for k, if there is one *)
+  Definition lru_touch (l : list centry) (k : K) : list centry :=
+    match c_read l k with
+    | Some old => old :: c_remove l k
+    | None => l
+    end.
   (* en = the cache was initialised with pendingWrites > 0 (else map and channels are nil) *)
   Definition cache_write (en : bool) (c : cache) (e : centry) : cache :=
-    if en then mkCache (lru_write (c_lru c) e) (c_pend c) (c_nf c) (c_pnf c) else c.
+    if en then mkCache (lru_write (c_lru c) e) (c_pend c) (c_nf c) (c_pnf c) (c_stall c) else c.
   Definition cache_wpend (en : bool) (pcap : nat) (c : cache) (e : centry) : cache :=
     if en && (length (c_pend c) <? pcap)
-    then mkCache (c_lru c) (c_pend c ++ [e]) (c_nf c) (c_pnf c) else c.
-  Definition cache_wpnf (en : bool) (pcap : nat) (c : cache) (k : K) : cache :=
+    then mkCache (c_lru c) (c_pend c ++ [e]) (c_nf c) (c_pnf c) (c_stall c) else c.
+  Definition cache_wpnf (en : bool) (pcap : nat) (c : cache) (p : K * nat) : cache :=
     if en && (length (c_pnf c) <? pcap)
-    then mkCache (c_lru c) (c_pend c) (c_nf c) (c_pnf c ++ [k]) else c.
-  Definition cache_flush (en : bool) (c : cache) : cache :=
-    if en then mkCache (fold_left lru_write (c_pend c) (c_lru c)) [] (c_pnf c ++ c_nf c) [] else c.
+    then mkCache (c_lru c) (c_pend c) (c_nf c) (c_pnf c ++ [p]) (c_stall c) else c.
+  (* the cache write of a lookup that went to the DB: executed right away, or left with the
+     reader (stall) to be executed by a later OLand *)
+  Definition cache_put (stall en : bool) (pcap : nat) (c : cache) (x : centry + K * nat) : cache :=
+    if stall then
+      (if en then mkCache (c_lru c) (c_pend c) (c_nf c) (c_pnf c) (c_stall c ++ [x]) else c)
+    else match x with
+         | inl e => cache_wpend en pcap c e
+         | inr p => cache_wpnf en pcap c p
+         end.
+  Fixpoint remove_nth {A : Type} (n : nat) (l : list A) : list A :=
+    match l, n with
+    | [], _ => []
+    | _ :: tl, 0 => tl
+    | x :: tl, S m => x :: remove_nth m tl
+    end.
+  Definition cache_land (en : bool) (pcap : nat) (c : cache) (n : nat) : cache :=
+    match nth_error (c_stall c) n with
+    | Some x =>
+        cache_put false en pcap
+                  (mkCache (c_lru c) (c_pend c) (c_nf c) (c_pnf c) (remove_nth n (c_stall c))) x
+    | None => c
+    end.
+  (* flushPendingWritesSince(R) (fixed) / flushPendingWrites (original) *)
+  Definition flush_one (fixed : bool) (R : nat) (l : list centry) (e : centry) : list centry :=
+    if fixed && (ce_rnd e <? R) then lru_touch l (ce_key e) else lru_write l e.
+  Definition cache_flush (en fixed : bool) (R : nat) (c : cache) : cache :=
+    if en then
+      mkCache (fold_left (flush_one fixed R) (c_pend c) (c_lru c)) []
+              (map fst (filter (fun p => negb (fixed && (snd p <? R))) (c_pnf c)) ++ c_nf c) []
+              (c_stall c)
+    else c.
   Definition cache_prune (en : bool) (c : cache) (n : nat) : cache :=
-    if en then mkCache (firstn n (c_lru c)) (c_pend c) [] (c_pnf c) else c.
+    if en then mkCache (firstn n (c_lru c)) (c_pend c) [] (c_pnf c) (c_stall c) else c.
 
   (* ---- one key space of accountUpdates ---- *)
   Record sp := mkSp { s_mods : mods; s_cache : cache; s_db : table }.
@@ -124,8 +165,10 @@ Section Space.
 
   (* lookupWithoutRewards / lookupResource / lookupKv.  mem = this space's records of
      au.deltas; dbr = the round stored in the DB (what the SQL lookup returns as Round). *)
-  (* second half of a lookup: base cache, then the DB with the round re-check *)
-  Definition sp_fall (en : bool) (pcap : nat) (dbRound dbr : nat) (s : sp) (k : K) : lres V * sp :=
+  (* second half of a lookup: base cache, then the DB with the round re-check.  The promotion of
+     a cache hit is queued while the read lock is still held; what was read from the DB is
+     queued after the lock has been dropped ([stall]: not yet) *)
+  Definition sp_fall (stall en : bool) (pcap : nat) (dbRound dbr : nat) (s : sp) (k : K) : lres V * sp :=
     match c_read (c_lru (s_cache s)) k with
     | Some e => (LOk (ce_val e), sp_setc s (cache_wpend en pcap (s_cache s) e))
     | None =>
@@ -133,13 +176,13 @@ Section Space.
         else if dbr =? dbRound then
           let v := db_get (s_db s) k in
           if nf_mode && is_empty v
-          then (LOk vempty, sp_setc s (cache_wpnf en pcap (s_cache s) k))
-          else (LOk v, sp_setc s (cache_wpend en pcap (s_cache s) (mkCE k v dbr)))
+          then (LOk vempty, sp_setc s (cache_put stall en pcap (s_cache s) (inr (k, dbr))))
+          else (LOk v, sp_setc s (cache_put stall en pcap (s_cache s) (inl (mkCE k v dbr))))
         else if dbr <? dbRound then (LErr 3, s)
         else (LRetry, s)
     end.
 
-  Definition sp_lookup (en : bool) (pcap : nat) (dbRound dbr : nat) (mem : list (list (K * D)))
+  Definition sp_lookup (stall en : bool) (pcap : nat) (dbRound dbr : nat) (mem : list (list (K * D)))
              (s : sp) (rnd : nat) (k : K) : lres V * sp :=
     if rnd <? dbRound then (LErr 1, s) else
     let off := rnd - dbRound in
@@ -149,9 +192,9 @@ Section Space.
         if off =? length mem then (LOk v, s)
         else match walk (firstn off mem) k with
              | Some d => (LOk (interp d), s)
-             | None => sp_fall en pcap dbRound dbr s k
+             | None => sp_fall stall en pcap dbRound dbr s k
              end
-    | None => sp_fall en pcap dbRound dbr s k
+    | None => sp_fall stall en pcap dbRound dbr s k
     end.
 
   (* getCreatorForRound: no cache; the modified map is only consulted for the latest round *)
@@ -212,14 +255,17 @@ Section Space.
     end.
 
   (* newBlockImpl on this space: flushPendingWrites, update the modified map, prune *)
-  Definition sp_newblock (en : bool) (buf : nat) (recs : list (K * D)) (s : sp) : sp :=
-    let c := cache_flush en (s_cache s) in
+  Definition sp_newblock (en fixed : bool) (R buf : nat) (recs : list (K * D)) (s : sp) : sp :=
+    let c := cache_flush en fixed R (s_cache s) in
     let m := mods_newblock (s_mods s) recs in
     mkSp m (cache_prune en c (length m + 1 + buf)) (s_db s).
 
-  Definition sp_flush (en : bool) (s : sp) : sp := sp_setc s (cache_flush en (s_cache s)).
-  Definition sp_prune (en : bool) (n : nat) (s : sp) : sp :=
-    sp_setc s (cache_prune en (cache_flush en (s_cache s)) n).
+  Definition sp_flush (en fixed : bool) (R : nat) (s : sp) : sp :=
+    sp_setc s (cache_flush en fixed R (s_cache s)).
+  Definition sp_prune (en fixed : bool) (R n : nat) (s : sp) : sp :=
+    sp_setc s (cache_prune en (cache_flush en fixed R (s_cache s)) n).
+  Definition sp_land (en : bool) (pcap n : nat) (s : sp) : sp :=
+    sp_setc s (cache_land en pcap (s_cache s) n).
   (* loadFromDisk / initializeFromDisk: fresh maps and caches over the same table *)
   Definition sp_reset (s : sp) : sp := sp_init (s_db s).
 End Space.
@@ -279,7 +325,8 @@ Record cfg := mkCfg {
   (* baseAccountsPendingAccountsBufferSize / baseResourcesPendingAccountsBufferSize /
      baseKVPendingBufferSize: capacity of the pending channels of a cache and slack of its
      prune size in newBlockImpl *)
-  cf_na : nat; cf_nr : nat; cf_nk : nat }.
+  cf_na : nat; cf_nr : nat; cf_nk : nat;
+  cf_fix : bool }.       (* flushPendingWritesSince (the repaired flush) rather than flushPendingWrites *)
 
 Inductive phase :=
 | PIdle
@@ -335,7 +382,13 @@ Inductive op :=
 | OQAcct (rnd : nat) (a : addr)
 | OQRes (rnd : nat) (a : addr) (c : cidx)
 | OQKv (rnd : nat) (k : kvkey)
-| OQCre (rnd : nat) (c : cidx) (ctype : N).
+| OQCre (rnd : nat) (c : cidx) (ctype : N)
+(* the same lookups by a reader that stalls between its DB read and its cache write *)
+| OSAcct (rnd : nat) (a : addr)
+| OSRes (rnd : nat) (a : addr) (c : cidx)
+| OSKv (rnd : nat) (k : kvkey)
+(* the n-th stalled cache write of a space lands (0 accounts, 1 resources, 2 KV) *)
+| OLand (space n : nat).
 
 Inductive out :=
 | RDone                                   (* state-changing operation performed / not enabled *)
@@ -358,10 +411,10 @@ Definition set_phase (s : st) (p : phase) : st :=
 Definition newblock_mem (s : st) (d : delta) : st :=
   let c := t_cfg s in
   mkSt c (t_blocks s) (t_dbRound s) (t_dbr s) (t_deltas s ++ [d])
-       (a_newblock (cf_cache c) (cf_na c) (d_accts d) (t_acc s))
-       (r_newblock (cf_cache c) (cf_nr c) (d_res d) (t_res s))
-       (k_newblock (cf_cache c) (cf_nk c) (d_kv d) (t_kv s))
-       (c_newblock false 0 (d_cre d) (t_cre s))
+       (a_newblock (cf_cache c) (cf_fix c) (t_dbRound s) (cf_na c) (d_accts d) (t_acc s))
+       (r_newblock (cf_cache c) (cf_fix c) (t_dbRound s) (cf_nr c) (d_res d) (t_res s))
+       (k_newblock (cf_cache c) (cf_fix c) (t_dbRound s) (cf_nk c) (d_kv d) (t_kv s))
+       (c_newblock false true (t_dbRound s) 0 (d_cre d) (t_cre s))
        (t_queue s) (t_phase s).
 Definition newblock (s : st) (d : delta) : st :=
   let s1 := newblock_mem s d in
@@ -467,20 +520,38 @@ Definition step (s : st) (o : op) : st * out :=
   | OPostCommit => let (s', p) := opt_or s (postcommit s) in (s', if p then RPanic else RDone)
   | OReload => let (s', p) := reload s in (s', if p then RPanic else RDone)
   | OFlush =>
-      (set_spaces s (sp_flush _ _ N.eqb en (t_acc s)) (sp_flush _ _ pair_eqb en (t_res s))
-                  (sp_flush _ _ bytes_eqb en (t_kv s)) (t_cre s), RDone)
+      let fx := cf_fix c in let R := t_dbRound s in
+      (set_spaces s (sp_flush _ _ N.eqb en fx R (t_acc s)) (sp_flush _ _ pair_eqb en fx R (t_res s))
+                  (sp_flush _ _ bytes_eqb en fx R (t_kv s)) (t_cre s), RDone)
   | OPrune na nr nk =>
-      (set_spaces s (sp_prune _ _ N.eqb en na (t_acc s)) (sp_prune _ _ pair_eqb en nr (t_res s))
-                  (sp_prune _ _ bytes_eqb en nk (t_kv s)) (t_cre s), RDone)
+      let fx := cf_fix c in let R := t_dbRound s in
+      (set_spaces s (sp_prune _ _ N.eqb en fx R na (t_acc s)) (sp_prune _ _ pair_eqb en fx R nr (t_res s))
+                  (sp_prune _ _ bytes_eqb en fx R nk (t_kv s)) (t_cre s), RDone)
   | OQAcct rnd a =>
-      let (r, a') := a_lookup en (cf_na c) (t_dbRound s) (t_dbr s) (map d_accts (t_deltas s)) (t_acc s) rnd a in
+      let (r, a') := a_lookup false en (cf_na c) (t_dbRound s) (t_dbr s) (map d_accts (t_deltas s)) (t_acc s) rnd a in
       (set_spaces s a' (t_res s) (t_kv s) (t_cre s), RAcct r)
   | OQRes rnd a ci =>
-      let (r, r') := r_lookup en (cf_nr c) (t_dbRound s) (t_dbr s) (map d_res (t_deltas s)) (t_res s) rnd (a, ci) in
+      let (r, r') := r_lookup false en (cf_nr c) (t_dbRound s) (t_dbr s) (map d_res (t_deltas s)) (t_res s) rnd (a, ci) in
       (set_spaces s (t_acc s) r' (t_kv s) (t_cre s), RRes r)
   | OQKv rnd k =>
-      let (r, k') := k_lookup en (cf_nk c) (t_dbRound s) (t_dbr s) (map d_kv (t_deltas s)) (t_kv s) rnd k in
+      let (r, k') := k_lookup false en (cf_nk c) (t_dbRound s) (t_dbr s) (map d_kv (t_deltas s)) (t_kv s) rnd k in
       (set_spaces s (t_acc s) (t_res s) k' (t_cre s), RKv r)
+  | OSAcct rnd a =>
+      let (r, a') := a_lookup true en (cf_na c) (t_dbRound s) (t_dbr s) (map d_accts (t_deltas s)) (t_acc s) rnd a in
+      (set_spaces s a' (t_res s) (t_kv s) (t_cre s), RAcct r)
+  | OSRes rnd a ci =>
+      let (r, r') := r_lookup true en (cf_nr c) (t_dbRound s) (t_dbr s) (map d_res (t_deltas s)) (t_res s) rnd (a, ci) in
+      (set_spaces s (t_acc s) r' (t_kv s) (t_cre s), RRes r)
+  | OSKv rnd k =>
+      let (r, k') := k_lookup true en (cf_nk c) (t_dbRound s) (t_dbr s) (map d_kv (t_deltas s)) (t_kv s) rnd k in
+      (set_spaces s (t_acc s) (t_res s) k' (t_cre s), RKv r)
+  | OLand sp n =>
+      (match sp with
+       | 0 => set_spaces s (sp_land _ _ en (cf_na c) n (t_acc s)) (t_res s) (t_kv s) (t_cre s)
+       | 1 => set_spaces s (t_acc s) (sp_land _ _ en (cf_nr c) n (t_res s)) (t_kv s) (t_cre s)
+       | 2 => set_spaces s (t_acc s) (t_res s) (sp_land _ _ en (cf_nk c) n (t_kv s)) (t_cre s)
+       | _ => s
+       end, RDone)
   | OQCre rnd ci ct =>
       (s, RCre (lmap (fun v => creator_of v ct)
                      (c_lookup (t_dbRound s) (t_dbr s) (map d_cre (t_deltas s)) (t_cre s) rnd ci)))
